@@ -1,13 +1,13 @@
 \* design check (thorough): lists of one or two test cases of every shape in the pool
 CONSTANTS
   RunModes = {0, 1, 2}
-  CaseSets = {2, 9}
+  CaseSets = {9}
   MaxSuites = 1
   SNames = {1}
   SModes = {0, 1, 2}
   RelPs = {1}
   RelVs = {1}
-  RelCs = {1, 2, 5}
+  RelCs = {1, 2}
   RelZs = {2}
   Flags = {0}
   Cvms = {0}
